@@ -386,7 +386,17 @@ async fn run_phase_ops(h: &StoreHandle, st: &mut L2State, ops: &[LogOp], pos: &m
                 let hi = st.m.end();
                 if hi > lo {
                     // roll-over scenarios: within the last 3000 entries (a compaction runs shortly behind the log end)
-                    let p = if st.roll_mode { hi - 1 - pick_idx(*at, (hi - lo).min(3000) as usize) as u64 } else { lo + pick_idx(*at, (hi - lo) as usize) as u64 };
+                    // ... and a pointer that follows another one closely lies in the lower half of what is left, so that pairs
+                    // of pointers on the same side of a file boundary are common
+                    let p = if st.roll_mode {
+                        if hi - lo <= 3000 && st.maxptr().is_some() {
+                            lo + pick_idx(*at, ((hi - lo) / 2 + 1) as usize) as u64
+                        } else {
+                            hi - 1 - pick_idx(*at, (hi - lo).min(3000) as usize) as u64
+                        }
+                    } else {
+                        lo + pick_idx(*at, (hi - lo) as usize) as u64
+                    };
                     let term = st.m.get(p).map(|e| e.term).unwrap_or(st.m.term);
                     // the catalogue part of StateApplyManager::do_build_snapshot: NewSnapshot, Flush,
                     // CompleteSnapshot; then FileStore::do_log_compaction's pointer message
